@@ -900,8 +900,8 @@ int bufr_descriptor_set_bitsvalue ( BufrDescriptor *cb , uint64_t ival )
 /*
  * special case for descriptor 31000 where 1 is 1 not -1
  */
-      if ((cb->descriptor == 31000)&&(cb->encoding.nbits == 1))
-         iv = 1;
+      if ((cb->encoding.type == TYPE_NUMERIC)&&(DESC_TO_X( cb->descriptor ) == 31))
+         iv = ival; /* regulation 94.1.5 does not apply to class 31: all ones is a count, as in bufr_get_desc_value */
       else
          iv = -1 ;
       }
